@@ -661,6 +661,14 @@ next:
 			for _, queries := range p.enclosingAtMedia {
 				if css_ast.MediaQueriesEqual(r.Queries, queries, nil) {
 					mangledRules = append(mangledRules, r.Rules...)
+
+					// The rule that comes next is now preceded by these rules, so it
+					// must not be merged with the rule before this "@media" rule
+					for _, inner := range r.Rules {
+						if _, ok := inner.Data.(*css_ast.RComment); !ok {
+							prevNonComment = inner.Data
+						}
+					}
 					continue next
 				}
 			}
